@@ -167,7 +167,8 @@ def run(ctx, job):
         ctx.expect("refines-across-different-interfaces-rejected", same)
         return {"cls": "OK"}
     # two-contract operations with a symbolic request subset
-    request = [v for v in allv if eng.choose("request")] if op in ("compose", "quotient") else []
+    # subsets of all variables plus one name foreign to both contracts
+    request = [v for v in allv + ["foreign"] if eng.choose("request")] if op in ("compose", "quotient") else []
     a1v = set(v.name for v in c1.a.vars)
     a2v = set(v.name for v in c2.a.vars)
     if op == "compose":
